@@ -217,6 +217,16 @@ func genWire(tier string) []proto.RTItem {
 				it.Class += "/enabled-spelled-t"
 				items = append(items, it)
 			}
+			if rdns {
+				// private and public IPv6 routers whose addresses agree in their low 32 bits, in both orders, under every
+				// completion order of the concurrent lookups the preemption bound allows
+				for _, rs := range [][]string{{"2001:db8::1", "fd12:3456::1", "2001:db8:5::1"}, {"fd12:3456::1", "2001:db8::1"}, {"fc00::", "fe00::"}} {
+					it := mk("udp", "", "2001:db8::77", rs, http, true)
+					it.Scn.Bound = 1
+					it.Class += "/routers-sharing-low-address-bits"
+					items = append(items, it)
+				}
+			}
 			// a private target: the destination hop itself must be redacted
 			items = append(items, mk("udp", "", "10.9.8.7", []string{"198.51.100.1", "10.1.2.3"}, http, rdns))
 		}
@@ -258,6 +268,11 @@ func checkWire(it *proto.RTItem, r *proto.RTResult) []proto.Issue {
 				}
 				if it.Scn.ReverseDNS && len(h.ReverseDns) == 0 {
 					out = append(out, proto.Issue{Key: "public-hop-lost-names", Detail: truth.String()})
+				}
+				// (the scripted resolver names every address "host-<address>.": a public hop carrying any other name carries data
+				// derived from another - possibly private - address)
+				if want := "host-" + truth.String() + "."; it.Scn.ReverseDNS && len(h.ReverseDns) > 0 && (len(h.ReverseDns) != 1 || h.ReverseDns[0] != want) {
+					out = append(out, proto.Issue{Key: "public-hop-carries-names-of-another-address", Detail: fmt.Sprintf("%s has names %v", truth, h.ReverseDns)})
 				}
 			}
 		}
